@@ -61,6 +61,16 @@ CHECKS = {
    note="Assumes the shimmed Mutex/Condvar operations are the only blocking synchronisation of the protocol (a 60 s no-progress watchdog turns anything else into a machinery failure, not a verdict). Weak-memory effects and data races not crossing a scheduling point are outside. Largest scenario capped (reported).",
    technique="stateless model checking: exhaustive schedule enumeration up to a deviation bound on the real code under a controlled scheduler",
    design_ref="2.3, 4/C20", engine="mc"),
+ "C08": dict(category="fault_enumeration",
+   text="For each of 6 (quick) / 11 streams with reference chains, blending, layered keyframes and multi-group frames with (unequal) local trees: every tracked allocation index k of a clean read + render, failed once or from k on, x every call history of length <= 2 (and length 3 ending in a render) over {render each keyframe, lift the fault, re-request full/quarter region, render the loading frame}, executed on a thread controlled by the cooperative scheduler so that a blocked caller is a reported deadlock; any full-region render that succeeds must be bit-identical to the never-failed render.",
+   note="Fault model = AllocTracker refusing an attempt (cfg-gated hook); untracked heap allocations are not failed; pool none; corrupt-group faults are part of C07's scenarios.",
+   technique="exhaustive fault-point x call-history enumeration on the real code, deadlock detection by controlled scheduler",
+   design_ref="4/C08", engine="mc"),
+ "C13": dict(category="fault_enumeration",
+   text="Allocation profile of an unlimited decode+render recorded per stream (cfg-gated attempt log); the limit then takes every value at which an outcome can change (outstanding+request of every attempt and its neighbours, 0, 1, ample) x 5 call histories ending with dropping every object, on the jxlw corpus and the repository's hostile fuzz regressions. Oracle: no panic, tracked high-water <= limit, a refused allocation is never swallowed (Ok renders equal the unlimited render), outstanding = 0 and full budget restorable after drop.",
+   note="Only tracker-governed memory; quick tier samples ~120 limits per stream from the sorted set (thorough: all).",
+   technique="exhaustive enumeration of outcome-changing limits x call histories",
+   design_ref="4/C13", engine="mc"),
 }
 NOT_YET = "check not built yet in this round (work in progress; see DESIGN.md section 10)"
 NA = {}
@@ -90,7 +100,7 @@ m = {
    "enable": "RUSTFLAGS='--cfg jxl_oxide_verif' (set in /verif/.cargo/config.toml; the checker crate depends on /repo/crates/* by path, so every build uses /repo's current working tree)",
    "baseline_off_cmd": "cd /repo && cargo nextest run --workspace --no-fail-fast --tool-config-file pb:/w/lib/nextest.toml --profile pb --test-threads 8 --offline",
    "source_commits": hooks_commits,
-   "add_only": True,
+   "add_only": False,
  },
  "engines": [
    {"name": "mc", "path": "/verif/mc", "serves_properties": sorted(CHECKS), "kind_free_text": "bounded exhaustive explorer (choice tape, deviation bounds, explicit enumeration) driving the real jxl-oxide crates"},
